@@ -29,6 +29,7 @@ SimNext ==
   \/ \E t \in Thread : (Fast(t) \/ NamesR(t) \/ NamesW(t) \/ Slow(t) \/ ResetStart(t) \/ ResetNames(t)) /\ hist' = hist
   \/ \E t \in Thread : Finish(t) /\ hist' = Append(hist, [op |-> "get", n |-> arg[t], ret |-> ret[t], how |-> how[t]])
   \/ \E t \in Thread : ResetZones(t) /\ hist' = Append(hist, [op |-> "reset"])
+  \/ \E t \in Thread : Idle /\ Avail(t) /\ hist' = Append(hist, [op |-> "avail", names |-> [n \in Name |-> IF n \in names' THEN 1 ELSE 0]])
   \/ /\ Idle /\ ops < MaxOps
      /\ \/ \E n \in Name : ReplaceFile(n) /\ hist' = Append(hist, [op |-> "replace", n |-> n, v |-> nextVer])
         \/ \E n \in Name : RemoveFile(n) /\ hist' = Append(hist, [op |-> "remove", n |-> n])
